@@ -165,6 +165,16 @@ claim("C14",
       TRUST + "the harness lexer and the accessor projection; open finding C14-commented-enum-variants-rendered-without-separators",
       "TLA+ grammar acceptor (TLC) validating zlink's rendering and its parse-back for constructor-built descriptions",
       "4/C14")
+claim("C15",
+      "Codegen.tla (on the descriptions of Idl.tla) says when a JSON value has the shape and the spellings an IDL type "
+      "declares, what a call through a generated method must look like and when a reply or error was decoded faithfully; "
+      "TLC checks its laws (every description in the grammar, a built value conforms, a misspelt member does not) and builds "
+      "descriptions over the name alphabet the property is about; each goes through /repo's zlink-codegen, the generated "
+      "modules are compiled against /repo's macros (a failure is a violation), every method is called with values of the "
+      "declared types, fed a reply and every declared error; TLC validates every captured call, reply and error.",
+      TRUST + "conversion of captured JSON to records; Rust identifiers read off the generated code by position",
+      "TLA+ specification of IDL-conforming wire values (TLC-built descriptions) + generated and compiled client code + TLC validation of its traffic",
+      "4/C15")
 claim("C16",
       "Introspect.tla gives the Varlink type of every supported Rust type expression (VarlinkOf) and the interface "
       "description a group of derive declarations must add up to (IfaceOf); TLC builds groups covering every row of the "
